@@ -309,7 +309,8 @@ mod builtins {
 
     fn cmp_helper(a: &Value, b: &Value, case_sensitive: bool, reverse: bool) -> Ordering {
         let ordering = if !case_sensitive {
-            if let (Some(a), Some(b)) = (a.as_str(), b.as_str()) {
+            // only strings are case folded: bytes are compared as the values they are
+            if let (Some(a), Some(b)) = (a.as_key_str(), b.as_key_str()) {
                 #[cfg(feature = "unicode")]
                 {
                     unicase::UniCase::new(a).cmp(&unicase::UniCase::new(b))
@@ -1766,7 +1767,7 @@ mod builtins {
             };
             let memorized_value = if case_sensitive {
                 value_to_compare.clone()
-            } else if let Some(s) = value_to_compare.as_str() {
+            } else if let Some(s) = value_to_compare.as_key_str() {
                 Value::from(s.to_lowercase())
             } else {
                 value_to_compare.clone()
